@@ -15,7 +15,10 @@ target.  Model of
   closed under children in either tree),
 * `InterCHKRevisionTree.iter_changes` (flavour `chk`: changed entries first,
   closure, unchanged entries appended afterwards with `(relpath, relpath)`),
-* applying a reported change list to the source tree (`applyChanges`).
+* applying a reported change list to the source tree (`applyChanges`),
+* the same loop with the fix proposed for the non-termination finding
+  (`preciseLoopG true`, `iterChangesG true`; the check probes the real code and
+  selects the variant).
 -/
 namespace BreezyVerif.C10
 
@@ -313,6 +316,82 @@ def iterChanges (impl : Impl) (src tgt : Tree) (filt : Option (List Path)) (incl
           let cs := b1 ++ b2 ++ extra
           .ok (cs ++ if incl then chkUnchanged src tgt (some sel) (cs.map (·.id)) else [])
         | none => .error .fuel
+
+/-! ### the loop with the proposed fix (probe-and-select)
+
+`fx = false` is the loop of the unchanged code (`preciseLoopG false = preciseLoop`, proved in
+`Lemmas/C10Gen.lean`); `fx = true` is the loop with the fix proposed for the non-termination
+finding: the ids the loop has examined are remembered (`examined_file_ids`), pending ids and the
+`source.path2id` occupants are filtered against the emitted *and* the examined ids. -/
+
+/-- the `while precise_file_ids` loop, optionally with `examined_file_ids` -/
+def preciseLoopG (fx : Bool) (src tgt : Tree) : Nat → PState → List Id → Option (List Change)
+  | 0, _, _ => none
+  | n + 1, st, ex =>
+    let p1 := st.precise.filter fun i => !st.changed.contains i && !(fx && ex.contains i)
+    if p1.isEmpty then some st.out
+    else
+      let olds := (p1.filterMap fun i => (pathOf tgt i).bind (idAt src)).filter
+        fun o => !(fx && (st.changed.contains o || ex.contains o))
+      let current := unionNew p1 olds
+      let st' := current.foldl (examine src tgt) { st with precise := [] }
+      preciseLoopG fx src tgt n st' (ex ++ current)
+
+/-- every id the loop can ever look at is an id of one of the trees or a parent field of the
+target: one more round than that is always enough for the fixed loop -/
+def gFuel (fx : Bool) (src tgt : Tree) : Nat :=
+  if fx then src.length + 2 * tgt.length + 1 else preciseFuel src tgt
+
+/-- `iterChanges` with the selected loop (identical to `iterChanges` for `fx = false`) -/
+def iterChangesG (fx : Bool) (impl : Impl) (src tgt : Tree) (filt : Option (List Path)) (incl reqv : Bool) :
+    Except Err (List Change) :=
+  match filt with
+  | none =>
+    match impl with
+    | .generic => .ok (if incl then allRecords src tgt else changesOf src tgt)
+    | .chk =>
+      let cs := changesOf src tgt
+      .ok (cs ++ if incl then chkUnchanged src tgt none (cs.map (·.id)) else [])
+  | some [] => .ok []
+  | some f =>
+    if reqv && !(notVersioned src tgt f).isEmpty then .error (.pathsNotVersioned (notVersioned src tgt f))
+    else
+      let sel := selectIds src tgt f
+      match impl with
+      | .generic =>
+        let b1 := baseTgt src tgt sel incl
+        let b2 := baseRemoved src tgt sel
+        match preciseLoopG fx src tgt (gFuel fx src tgt)
+            { precise := tgtParents b1, changed := (b1 ++ b2).map (·.id), out := [] } [] with
+        | some extra => .ok (b1 ++ b2 ++ extra)
+        | none => .error .fuel
+      | .chk =>
+        let b1 := baseTgt src tgt sel false
+        let b2 := baseRemoved src tgt sel
+        match preciseLoopG fx src tgt (gFuel fx src tgt)
+            { precise := tgtParents b1, changed := (b1 ++ b2).map (·.id), out := [] } [] with
+        | some extra =>
+          let cs := b1 ++ b2 ++ extra
+          .ok (cs ++ if incl then chkUnchanged src tgt (some sel) (cs.map (·.id)) else [])
+        | none => .error .fuel
+
+/-! ### hypotheses of the partial theorems (decidable, evaluated by the driver too) -/
+
+/-- no target path is occupied in the source by a *different* id: the `source.path2id(path)`
+lookups of `_handle_precise_ids` find nothing new -/
+def noPathOccupant (src tgt : Tree) : Bool :=
+  (ids tgt).all fun i =>
+    match (pathOf tgt i).bind (idAt src) with
+    | none => true
+    | some o => o == i
+
+/-- no id takes, in the target, a (parent id, name) slot that a *different* id holds in the source
+(the tree root's slot included) -/
+def noSlotOccupant (src tgt : Tree) : Bool :=
+  tgt.all fun x => src.all fun y => x.1 == y.1 || !(x.2.parent == y.2.parent && x.2.name == y.2.name)
+
+/-- both trees have the same root id -/
+def sameRoot (src tgt : Tree) : Bool := rootsOf src == rootsOf tgt
 
 /-- is `p` at or below one of the filter paths (`osutils.is_inside_any`) -/
 def insideAny (filt : List Path) (p : Path) : Bool := filt.any fun f => f.isPrefixOf p
